@@ -571,6 +571,52 @@ func Families(tier string) []Family {
 		fams = append(fams, f)
 	}
 
+	// setvalue: the program's own SetValue calls between definition and Parse, for every kind (C01, C02, C12)
+	{
+		f := Family{Name: "setvalue"}
+		toks := Ts("--o", "--o=1", "--o=K=z", "1", "2..3", "K=w", "x", "--")
+		type sv struct {
+			kind string
+			sets [][]string
+		}
+		for _, k := range []sv{
+			{"bool", [][]string{{}}}, {"bool", [][]string{{"false"}}}, {"bool", [][]string{{"true"}, {"x"}}},
+			{"incr", [][]string{{}, {}}}, {"incr", [][]string{{"5"}}},
+			{"string", [][]string{{"preset"}}}, {"string", [][]string{{"a", "b"}}}, {"sopt", [][]string{{""}}},
+			{"int", [][]string{{"5"}}}, {"int", [][]string{{"5"}, {"x"}}}, {"iopt", [][]string{{"007", "x"}}},
+			{"float", [][]string{{"2.5"}}}, {"fopt", [][]string{{"1e3"}, {"1..2"}}},
+			{"sslice", [][]string{{"a", "b"}, {"c"}}}, {"sslice", [][]string{{}}},
+			{"islice", [][]string{{"1", "2..4"}}}, {"islice", [][]string{{"1", "x"}, {"9"}}}, {"islice", [][]string{{"3..1"}}},
+			{"fslice", [][]string{{"1.5", "2"}}}, {"fslice", [][]string{{"1", "y", "3"}}},
+			{"smap", [][]string{{"k=v", "K=w"}}}, {"smap", [][]string{{"k=v", "novalue", "z=1"}}},
+		} {
+			c := Cfg{Mode: 0, Lower: k.kind == "smap"}
+			c.Nodes = []NodeCfg{rootNode(0, false), cmdNode("cmd", 1, 0, false, true)}
+			o := multi(k.kind, "o", 1, 1, 2)
+			o.DefT = T(map[string]string{"string": "def", "sopt": "def", "int": "7", "iopt": "7", "float": "7.5", "fopt": "7.5"}[k.kind])
+			c.Opts = []OptCfg{o, opt("string", "other", 2)}
+			for _, vals := range k.sets {
+				c.Sets = append(c.Sets, SetCfg{Opt: 1, Vals: Ts(vals...)})
+			}
+			c.Sets = append(c.Sets, SetCfg{Opt: 0, Vals: Ts("v")}, SetCfg{Opt: 2, Vals: Ts("through the command")})
+			f.Defs = append(f.Defs, Def{Cfg: c, Tokens: toks, L: lim(tier, 2, 3)})
+		}
+		// valid values are enforced for SetValue too
+		for _, vals := range [][]string{{"a"}, {"x"}, {"a", "x"}} {
+			c := Cfg{Mode: 0}
+			c.Nodes = []NodeCfg{rootNode(0, false)}
+			sv := opt("string", "o", 1)
+			sv.Valid = Ts("a", "b")
+			sv.DefT = T("b")
+			lv := multi("sslice", "l", 1, 1, 2)
+			lv.Valid = Ts("a", "b")
+			c.Opts = []OptCfg{sv, lv}
+			c.Sets = []SetCfg{{Opt: 1, Vals: Ts(vals...)}, {Opt: 2, Vals: Ts(vals...)}}
+			f.Defs = append(f.Defs, Def{Cfg: c, Tokens: Ts("--o=a", "--o=x", "--l", "a", "x"), L: 2})
+		}
+		fams = append(fams, f)
+	}
+
 	// valid: options with enforced valid values, on the command line and through the environment (C12, C01)
 	{
 		f := Family{Name: "valid"}
